@@ -56,6 +56,13 @@ def evaluate(v, keys, errors, exc, base_keys):
             if not any(v.expect in e for e in errors):
                 return 'breaking variant %s only produced analysis error %r' % (v.name, errors[:2])
         return None
+    if v.kind == 'repair':
+        still = [k for k in keys if v.expect and (v.expect in k[0] or v.expect in k[1])]
+        if new or errors or still:
+            return 'repaired variant %s: finding still present or new alarm: still=%r new=%r errors=%r' % (v.name, still[:2], new[:2], errors[:2])
+        if not [k for k in gone if v.expect in k[0] or v.expect in k[1]]:
+            return 'repaired variant %s: the base tree did not have the finding %r' % (v.name, v.expect)
+        return None
     if new or errors or gone:
         return 'neutral variant %s raised an alarm: new=%r errors=%r gone=%r' % (v.name, new[:3], errors[:2], gone[:3])
     return None
@@ -89,7 +96,7 @@ def run(prop, mod, rep, jobs=None):
     return dict(
         variants=len(variants),
         breaking=len([v for v in variants if v.kind == 'break']),
-        neutral=len([v for v in variants if v.kind == 'neutral']),
+        neutral=len([v for v in variants if v.kind in ('neutral', 'repair')]),
         passed=ok, failed=failed,
     )
 
